@@ -10,6 +10,13 @@ COMMON_NOTE = ('Trusted base: z3 4.x/5.1 (python3-vt), the symx forking engine, 
                'reals), sizes beyond the stated bounds, GPU, complex dtypes. ')
 
 CHECKS = {
+ 'C12': dict(
+    text='The presentation of a grammar (rule, edge and node insertion order, explicit vs implicit ids, consistent renaming of labels, a transposition of domain values applied to every matching factor axis) is a vector of solver variables, i.e. a symbolic schedule: '
+         'it fixes dict/set iteration order inside the solvers. Every presentation inside the bound is explored; both presentations are evaluated by sum_product over the same symbolic weights and the solver decides cell-wise equality of the start tensors modulo the value '
+         'permutation, and of the gradients for Real non-recursive grammars.',
+    note='Bounds: grammars with <=3 (sampled permutations beyond) rules and <=12 weights from the feature set, a seeded two-level sample and 5 recursive shapes (Bool/Viterbi exact with tol=0, Real via method linear with fewer presentation dimensions); '
+         'quick: edge permutations of the first rule, node reversal of the first two rules, renaming tied to explicit ids. Not decided here: hash-order effects of str ids (PYTHONHASHSEED fixed), equality of viterbi derivation weights (follows from C04 per presentation).',
+    technique='symbolic schedules (presentation choices as solver variables) + SMT equivalence (z3)', design='5/C12'),
  'C11': dict(
     text='The obligations of C01/C03/C07/C06/C13 are re-decided under the variations the property names: (a) gradients with j_precompute=True against the same forward-mode derivatives, (b) the same harnesses in a child interpreter started with -OO (-O and -OO in thorough), '
          'where assert statements and `if __debug__:` blocks of fggs do not exist -- a crash or a changed term there means an assertion was doing work, (c) one grammar in all four semirings on related symbolic inputs: exp(Log) == Real, Bool == (Real > 0), Viterbi <= Log per cell. '
